@@ -33,6 +33,12 @@ var rigSeq atomic.Int64
 const barrierWatchdog = 60 * time.Second
 
 func newRig(c *ctx, name string, args []string) (*rig, error) {
+	return newRigWith(c, name, args, "")
+}
+
+// newRigWith starts fabio with initManual already in the Consul KV store, so that the routes are part of the
+// very first routing table fabio builds during start-up.
+func newRigWith(c *ctx, name string, args []string, initManual string) (*rig, error) {
 	if c.Fabio == "" {
 		return nil, fmt.Errorf("no fabio binary given (-fabio)")
 	}
@@ -42,6 +48,11 @@ func newRig(c *ctx, name string, args []string) (*rig, error) {
 	}
 	a.Update(func(n map[string]*fakeconsul.Node, i map[string]*fakeconsul.Instance) {})
 	a.PutKV("fabio/config/zz-tick", "# tick 0")
+	if initManual != "" {
+		a.PutKV("fabio/config/manual", initManual)
+		// the manual configuration shall be part of the very first table: let the KV watcher report first
+		a.DelayFirstHealth(1500 * time.Millisecond)
+	}
 	full := append([]string{"-registry.backend", "consul", "-registry.consul.addr", a.Addr()}, args...)
 	logPath := filepath.Join(c.Dir, fmt.Sprintf("fabio-%s-%d.log", name, rigSeq.Add(1)))
 	p, err := fabioproc.Start(c.Fabio, logPath, full, nil)
@@ -49,7 +60,7 @@ func newRig(c *ctx, name string, args []string) (*rig, error) {
 		a.Close()
 		return nil, err
 	}
-	r := &rig{c: c, name: name, agent: a, proc: p}
+	r := &rig{c: c, name: name, agent: a, proc: p, manual: initManual}
 	if err := p.WaitReady(30 * time.Second); err != nil {
 		r.close()
 		return nil, err
